@@ -32,5 +32,9 @@ def run(ctx):
     ND.run_model(ctx, "node_w0", ND.W0["stakes"], ND.W0["own"], ND.W0["max_slot"],
                  8 if ctx.tier == "quick" else 13, ND.W0["d"],
                  sample=(70000 if ctx.tier == "quick" else 1500000), witnesses=["W_Final"])
+    # code -> spec on real executions: every pool call / Votor step of every correct node of simulated networks
+    # (equivocating and noisy Byzantine validators, loss, crashes, standstill recovery) is a transition of the spec
+    from .. import nodetrace as NT
+    NT.component_sims(ctx, lambda a: "votor" in a or "channel" in a)
     return ctx.finish(rule="every (votor state, event) pair of the model is one case; events: pool events, "
                            "blockstore events (several blocks per slot, children before parents), timeouts")
